@@ -344,6 +344,34 @@ R.contract(
     replayable=False,
 )
 
+
+# ------------------------------------------------------------------------------------------------- ignored_auth probes (the sanctioned exception): ONLY the declared security parameters are removed
+CKS14 = "schemathesis.specs.openapi.checks:"
+R.contract("schemathesis.generation.case:Case", abstract_only=True, args={}, note="dataclass constructor",
+           returns=lambda it, env: __import__("pyvc.values", fromlist=["VObj"]).VObj(it.resolve_class("spec:ProbeCase"), {k: env.get(k) for k in ("operation", "method", "path", "path_parameters", "headers", "cookies", "query", "body", "media_type", "meta")}))
+_Cont = lambda a, b: OneOf(NoneT, DictOf(optional={a: Str, b: Str}))
+SecParams = Choice([], [{"name": "Authorization", "in": "header"}], [{"name": "api_key", "in": "query"}], [{"name": "Authorization", "in": "header"}, {"name": "sid", "in": "cookie"}, {"name": "api_key", "in": "query"}])
+KEPT = lambda cont, loc: "({k: case.%s[k] for k in case.%s if not any(p['in'] == '%s' and p['name'] == k for p in security_parameters)} if case.%s else None)" % (cont, cont, loc, cont)
+R.contract(
+    CKS14 + "remove_auth",
+    prop="C14",
+    args={"case": Obj("spec:GeneratedCase", operation=Opq("Op"), method=Str, path=Str, path_parameters=OneOf(NoneT, DictOf(required={"id": Str})), headers=_Cont("Authorization", "X-Tenant"),
+                      query=_Cont("api_key", "q"), cookies=_Cont("sid", "theme"), body=Opq("Body"), media_type=Str, meta=Opq("Meta")),
+          "security_parameters": SecParams},
+    raises=[],
+    ensures={
+        # the probe is the same request minus exactly the credentials the operation declares: every other header (e.g. a configured tenant header), query parameter and cookie stays
+        "only_the_declared_credentials_are_removed": "same_map(result.headers, " + KEPT("headers", "header") + ") and same_map(result.query, " + KEPT("query", "query") + ") and "
+                                                     "same_map(result.cookies, " + KEPT("cookies", "cookie") + ")",
+        "everything_else_is_the_same_request": "result.operation is case.operation and result.method == case.method and result.path == case.path and same_map(result.path_parameters, case.path_parameters if case.path_parameters else None) and "
+                                               "same(result.media_type, case.media_type)",
+        "the_original_case_keeps_its_credentials": "same_map(case.headers, old(deep(case.headers))) and same_map(case.query, old(deep(case.query))) and same_map(case.cookies, old(deep(case.cookies)))",
+    },
+    bounded_note="two headers / query parameters / cookies, up to 3 declared security parameters",
+)
+R.spec_funcs["deep"] = lambda it, v: it.B._deepcopy(v, {})
+R.spec_funcs["same_map"] = lambda it, a, b: (a is None and b is None) if (a is None or b is None) else __import__("pyvc.ops", fromlist=["eq"]).eq(a, b)
+
 LEVEL_TEXT = ("Deductive: header precedence, override restriction (loop invariant over any number of parameters) and the token cache's double-checked lock "
               "under an explicit rely condition (cache havoced at lock acquisition) are postconditions on the real functions, discharged by z3.")
 LEVEL_NOTE = "Trusted: CaseInsensitiveDict, threading.Lock as synchronisation point (rely), frozen timer, pyvc semantics (E9). Free interleavings are not decided."
